@@ -28,6 +28,7 @@ import (
 	"verifmc/evid"
 	"verifmc/explore"
 	"verifmc/hx"
+	"verifmc/netrows"
 	"verifmc/pk"
 	"verifmc/sc/c01"
 	"verifmc/stacks"
@@ -48,6 +49,9 @@ func simple(name string, pb int, body func(x *vrt.Exec)) *explore.Scenario {
 	sc.Check = func(x *vrt.Exec) []explore.Finding {
 		if x.HorizonHit {
 			return []explore.Finding{{Kind: "step-horizon", Site: name, Detail: "did not finish"}}
+		}
+		if s, ok := x.Data.(string); ok && strings.HasPrefix(s, "vacuous") {
+			return []explore.Finding{{Kind: "scenario-vacuous", Site: name, Detail: s}}
 		}
 		return nil
 	}
@@ -164,8 +168,9 @@ func extraScenarios(pb int) []*explore.Scenario {
 		bg := context.Background()
 		ctx, cf := hx.WithCancel(bg)
 		defer cf()
-		vrt.Go("first-send", func() { a.Send(ctx, p2p.IOVec{[]byte("hello")}) })
-		for round := 0; round < 12; round++ {
+		sent, gotHello := false, false
+		vrt.Go("first-send", func() { sent = a.Send(ctx, p2p.IOVec{[]byte("hello")}) == nil })
+		for round := 0; round < 60; round++ {
 			x.Settle()
 			if when, ok := x.NextTimer(); ok && when <= x.Now {
 				x.FireNextTimer()
@@ -180,7 +185,9 @@ func extraScenarios(pb int) []*explore.Scenario {
 			}
 			netMu.Unlock()
 			if mb != nil {
-				b.Deliver(nil, mb)
+				if out, err := b.Deliver(nil, mb); err == nil && string(out) == "hello" {
+					gotHello = true
+				}
 				continue
 			}
 			if ma != nil {
@@ -188,6 +195,10 @@ func extraScenarios(pb int) []*explore.Scenario {
 				continue
 			}
 			break
+		}
+		if !sent || !gotHello {
+			x.Data = fmt.Sprintf("vacuous: the channel was not established before the explored phase (first Send returned: %v, b received it: %v)", sent, gotHello)
+			return
 		}
 		x.NoBranch = false
 		// the explored phase: concurrent API calls on one established channel
@@ -235,9 +246,22 @@ func extraScenarios(pb int) []*explore.Scenario {
 				p2p.LookupPublicKeyInHandler[p2pkeswarm.Addr[Addr], x509.PublicKey](b, m.Src)
 			})
 		})
+		// establish a <-> b deterministically (the handshake is started by a zero-delay timer,
+		// which this scenario fires by hand: its horizon keeps every later timer quiet)
 		x.NoBranch = true
-		a.Tell(ctx, dst, p2p.IOVec{[]byte("warm")})
+		warm := false
+		vrt.Go("warm-up", func() { warm = a.Tell(ctx, dst, p2p.IOVec{[]byte("warm")}) == nil })
+		for i := 0; i < 40 && !warm; i++ {
+			x.Settle()
+			if when, ok := x.NextTimer(); ok && when <= x.Now {
+				x.FireNextTimer()
+			}
+		}
 		x.Settle()
+		if !warm {
+			x.Data = "vacuous: the warm-up Tell did not complete"
+			return
+		}
 		x.NoBranch = false
 		// a peer A has never seen contacts it while A is busy with its own calls
 		vrt.Go("newcomer", func() { c.Tell(ctx, a.LocalAddrs()[0], p2p.IOVec{[]byte("hi")}) })
@@ -438,10 +462,13 @@ func main() {
 	}
 	pb := evid.Pick(run, 1, 2)
 	var scs []*explore.Scenario
-	for i, c := range c01.Configs(false) {
-		if !run.Thorough() && i%2 == 1 && c.Stack.Kind != "mbapp" {
+	seenKind := map[string]bool{}
+	for _, c := range c01.Configs(false) {
+		// quick: the first configuration of every stack kind (and every mbapp one)
+		if !run.Thorough() && seenKind[c.Stack.Kind] && c.Stack.Kind != "mbapp" {
 			continue
 		}
+		seenKind[c.Stack.Kind] = true
 		c.Workers = 2
 		c.Receivers = 2
 		sc := c01.Scenario(c, pb)
@@ -453,6 +480,11 @@ func main() {
 		scs = append(scs, sc)
 	}
 	explore.Main(run, scs, evid.Pick(run, 170*time.Second, 20*time.Minute))
+	// free-running -race pass over sshswarm / quicswarm (outside the controlled scheduler);
+	// its reports land in the same log files
+	if netrows.Run(run) {
+		run.Assume("sshswarm and quicswarm: a separate free-running pass of concurrent API calls built with -race (the detector decides by happens-before, the schedules are the runtime's own)")
+	}
 	// every race report of every worker process
 	reports := parseReports(os.Getenv("VERIF_RACE_LOG"))
 	relevant, harnessOnly := 0, 0
